@@ -20,8 +20,11 @@ def linkN (inp : LinkInput) : Except Err (Obj × List ObjTrace) :=
         match layoutSections d2 (memories inp) with
         | .error e => .error e
         | .ok d3 =>
-          if inp.partialLink then .ok (d3, tr)
-          else if hasUndefined d3.symbols then .error .CompilerError else .ok (d3, tr)
+          match checkPlacedOnce d3 with
+          | .error e => .error e
+          | .ok _ =>
+            if inp.partialLink then .ok (d3, tr)
+            else if hasUndefined d3.symbols then .error .CompilerError else .ok (d3, tr)
 
 theorem linkT_eq_linkN (inp : LinkInput) (hne : inp.objs ≠ [])
     (hpl : ¬ (inp.partialLink = true ∧ inp.layout.isSome = true)) : linkT inp = linkN inp := by
@@ -31,19 +34,24 @@ theorem linkT_eq_linkN (inp : LinkInput) (hne : inp.objs ≠ [])
     | nil => exact absurd h hne
     | cons _ _ => rfl
   simp only [this, Bool.false_eq_true, if_false]
-  cases initEntry (entryName inp) with
+  cases h0 : initEntry (entryName inp) with
   | error e => rfl
   | ok d0 =>
     simp only
-    cases addExtras d0 inp.extras with
+    cases h1 : addExtras d0 inp.extras with
     | error e => rfl
     | ok d1 =>
       simp only
-      cases mergeObjects d1 inp.objs with
+      cases h2 : mergeObjects d1 inp.objs with
       | error e => rfl
       | ok p =>
         obtain ⟨d2, tr⟩ := p
         simp only
+        have himg : d2.images = [] := by
+          have a := initEntry_ok h0
+          have b := addExtras_ok h1 a.2.2.2
+          rw [mergeObjects_images h2, b.2.1, a.2.1]
+        have hchk : checkPlacedOnce d2 = .ok () := by simp [checkPlacedOnce, himg]
         by_cases hp : inp.partialLink = true
         · have hl : inp.layout.isSome = false := by
             cases h : inp.layout.isSome with
@@ -51,21 +59,25 @@ theorem linkT_eq_linkN (inp : LinkInput) (hne : inp.objs ≠ [])
             | true => exact absurd ⟨hp, h⟩ hpl
           have hm : memories inp = [] := by
             unfold memories; cases inp.layout <;> simp [hp]
-          simp [hp, hl, hm, layoutSections]
+          simp [hp, hl, hm, layoutSections, hchk]
         · have hp' : inp.partialLink = false := by simpa using hp
           cases hl : inp.layout with
           | none =>
             have hm : memories inp = [] := by unfold memories; simp [hl]
-            simp only [hp', hm, layoutSections, checkUndefined, Bool.false_eq_true, if_false]
+            simp only [hp', hm, layoutSections, checkUndefined, Bool.false_eq_true, if_false, hchk]
             by_cases hu : hasUndefined d2.symbols = true <;> simp [hu]
           | some l =>
             have hm : memories inp = l.memories := by unfold memories; simp [hl, hp']
-            simp only [hp', hm, Bool.false_eq_true, if_false]
+            simp only [hp', hm, Bool.false_eq_true, if_false, layoutChecked]
             cases layoutSections d2 l.memories with
             | error e => rfl
             | ok d3 =>
-              simp only [checkUndefined]
-              by_cases hu : hasUndefined d3.symbols = true <;> simp [hu]
+              simp only
+              cases checkPlacedOnce d3 with
+              | error e => rfl
+              | ok _ =>
+                simp only [checkUndefined]
+                by_cases hu : hasUndefined d3.symbols = true <;> simp [hu]
 
 /-! ### well-formed requests -/
 
@@ -161,6 +173,14 @@ theorem linkN_run {inp : LinkInput} (wf : WFp inp) {ps : List MemPlan} (hps : pl
       by_cases hL : Fresh ([] ++ X ++ OD) MD ∧ Fits (memories inp) ps
       · obtain ⟨d3, h3, tab3⟩ := l2 hL
         rw [h3]
+        simp only
+        have hchk : checkPlacedOnce d3 = .ok () := by
+          have himg : d2.images = [] := by
+            rw [mergeObjects_images h2, (addExtras_ok h1 hid0).2.1, (initEntry_ok h0).2.1]
+          unfold checkPlacedOnce
+          rw [layoutSections_imgnames h3, himg]
+          simp [wf.nodup]
+        rw [hchk]
         simp only
         have hnodup : (definedNames inp).Nodup := by
           rw [hdef, hsplit]; exact ⟨hX, by simpa using hOD, by simpa using hL.1⟩
